@@ -12,7 +12,7 @@ import (
 )
 
 func main() {
-	ex.Main([]string{"TermKeys.lean", "TermInputModes.lean"}, func(c *ex.Ctx) { gen(c); genModes(c) })
+	ex.Main([]string{"TermKeys.lean", "TermInputModes.lean", "TermBody.lean"}, func(c *ex.Ctx) { gen(c); genModes(c); genTermBody(c) })
 }
 
 func bytesLit(s string) string {
@@ -103,6 +103,7 @@ func gen(c *ex.Ctx) {
 	}
 	found := false
 	hasDefault := false
+	defaultRange := "(0, 0)"
 	var rows []string
 	ast.Inspect(fd.Body, func(n ast.Node) bool {
 		sw, ok := n.(*ast.SwitchStmt)
@@ -114,9 +115,9 @@ func gen(c *ex.Ctx) {
 			cc := st.(*ast.CaseClause)
 			if cc.List == nil {
 				hasDefault = true
-				if len(cc.Body) != 1 || c.Src(cc.Body[0]) != "buf.WriteRune(key.Keycode - 0x40)" {
-					c.Fail("%s: encodeXterm Ctrl switch default is not `buf.WriteRune(key.Keycode - 0x40)`", c.Pos(cc))
-				}
+				// default: `if key.Keycode >= LO && key.Keycode < HI { buf.WriteRune(key.Keycode - 0x40) } else { buf.WriteRune(key.Keycode) }`
+				// (the older unguarded `buf.WriteRune(key.Keycode - 0x40)` is the range (-2^31, 2^31))
+				defaultRange = ctrlDefaultRange(c, env, cc)
 				continue
 			}
 			var out string
@@ -158,9 +159,49 @@ func gen(c *ex.Ctx) {
 		c.Fail("widgets/term/key.go: encodeXterm: `switch key.Keycode` with default not found")
 		return
 	}
-	sb.WriteString("/-- encodeXterm, Ctrl + non-lowercase key: explicit cases (key ↦ runes written); default is `key - 0x40`. -/\ndef ctrlCases : List (Int × List Int) := [" + strings.Join(rows, ", ") + "]\n\n")
+	sb.WriteString("/-- encodeXterm, Ctrl + key other than a–z: explicit cases (key ↦ runes written). -/\ndef ctrlCases : List (Int × List Int) := [" + strings.Join(rows, ", ") + "]\n\n")
+	sb.WriteString("/-- encodeXterm, Ctrl switch default: `key - 0x40` is written for `lo ≤ key < hi`, the key itself otherwise. -/\ndef ctrlDefaultRange : Int × Int := " + defaultRange + "\n\n")
 	sb.WriteString("end VaxisModel.Gen.TermKeys\n")
 	c.Write("TermKeys.lean", sb.String())
+}
+
+// ctrlDefaultRange recognises the default arm of the Ctrl switch of encodeXterm.
+func ctrlDefaultRange(c *ex.Ctx, env *keyconst.Env, cc *ast.CaseClause) string {
+	const sub = "buf.WriteRune(key.Keycode - 0x40)"
+	const self = "buf.WriteRune(key.Keycode)"
+	bad := func() string {
+		c.Fail("%s: encodeXterm Ctrl switch default is neither `%s` nor `if key.Keycode >= LO && key.Keycode < HI { %s } else { %s }`", c.Pos(cc), sub, sub, self)
+		return "(0, 0)"
+	}
+	if len(cc.Body) != 1 {
+		return bad()
+	}
+	if c.Src(cc.Body[0]) == sub {
+		return "(-2147483648, 2147483648)"
+	}
+	ifs, ok := cc.Body[0].(*ast.IfStmt)
+	if !ok || ifs.Init != nil || ifs.Else == nil {
+		return bad()
+	}
+	els, ok := ifs.Else.(*ast.BlockStmt)
+	if !ok || len(ifs.Body.List) != 1 || len(els.List) != 1 || c.Src(ifs.Body.List[0]) != sub || c.Src(els.List[0]) != self {
+		return bad()
+	}
+	and, ok := ifs.Cond.(*ast.BinaryExpr)
+	if !ok || and.Op.String() != "&&" {
+		return bad()
+	}
+	lo, ok1 := and.X.(*ast.BinaryExpr)
+	hi, ok2 := and.Y.(*ast.BinaryExpr)
+	if !ok1 || !ok2 || lo.Op.String() != ">=" || hi.Op.String() != "<" || c.Src(lo.X) != "key.Keycode" || c.Src(hi.X) != "key.Keycode" {
+		return bad()
+	}
+	lv, err1 := env.Eval(lo.Y, 0)
+	hv, err2 := env.Eval(hi.Y, 0)
+	if err1 != nil || err2 != nil {
+		return bad()
+	}
+	return fmt.Sprintf("(%d, %d)", lv, hv)
 }
 
 func strLit(e ast.Expr) (string, bool) {
